@@ -28,6 +28,10 @@ pub enum Delivery {
     Lazy,
     LazyPending(u8),
     EffectPending(u8),
+    /// fault: the request is lost before it reaches the server and the client returns Err. Honoured
+    /// for insert_order only (every other request treats it as Lazy): it is the one request whose
+    /// failure the broker claims to handle (OrderFailure)
+    InsertFails,
 }
 
 #[derive(Clone, Debug)]
@@ -40,6 +44,8 @@ pub enum Wire {
     Init { id: u64 },
     Info { bt: u64 },
     Rejected { what: &'static str, status: u16 },
+    /// an injected transport failure: the request never reached the server
+    Failed { what: &'static str },
 }
 
 pub struct Shared {
@@ -55,6 +61,8 @@ pub struct Shared {
     pub pending_polls: Cell<u64>,
     /// futures created but dropped without ever being polled to their effect
     pub dropped_unpolled: Cell<u64>,
+    /// injected insert_order failures so far
+    pub failed_inserts: Cell<u64>,
 }
 
 impl Shared {
@@ -69,6 +77,7 @@ impl Shared {
             lazy_effects: Cell::new(0),
             pending_polls: Cell::new(0),
             dropped_unpolled: Cell::new(0),
+            failed_inserts: Cell::new(0),
         })
     }
 
@@ -127,13 +136,17 @@ impl<T> SimFut<T> {
     fn new(sh: Rc<Shared>, effect: Box<dyn FnOnce() -> T>) -> Self {
         sh.spend();
         let mode = sh.next_mode();
+        Self::with_mode(sh, effect, mode)
+    }
+
+    fn with_mode(sh: Rc<Shared>, effect: Box<dyn FnOnce() -> T>, mode: Delivery) -> Self {
         let mut f = SimFut { sh, effect: Some(effect), result: None, before: 0, after: 0 };
         match mode {
             Delivery::Eager => {
                 let e = f.effect.take().unwrap();
                 f.result = Some(e());
             }
-            Delivery::Lazy => {}
+            Delivery::Lazy | Delivery::InsertFails => {}
             Delivery::LazyPending(k) => f.before = k,
             Delivery::EffectPending(k) => f.after = k,
         }
@@ -224,7 +237,21 @@ impl UistClient for SimClient {
 
     fn insert_order(&mut self, order: Order, backtest_id: BacktestId) -> impl Future<Output = Result<()>> {
         let sh = self.sh.clone();
-        SimFut::new(
+        self.sh.spend();
+        let mode = self.sh.next_mode();
+        if mode == Delivery::InsertFails {
+            let sh2 = self.sh.clone();
+            return SimFut::with_mode(
+                self.sh.clone(),
+                Box::new(move || {
+                    sh2.failed_inserts.set(sh2.failed_inserts.get() + 1);
+                    sh2.wire.borrow_mut().push(Wire::Failed { what: "insert_order" });
+                    Err(anyhow!("injected fault: insert_order request lost"))
+                }),
+                Delivery::Lazy,
+            );
+        }
+        SimFut::with_mode(
             self.sh.clone(),
             Box::new(move || match sh.srv.insert(&order, backtest_id) {
                 Ok(()) => {
@@ -233,6 +260,7 @@ impl UistClient for SimClient {
                 }
                 Err(e) => Err(rej("insert_order", &sh, e)),
             }),
+            mode,
         )
     }
 
